@@ -61,7 +61,9 @@ RTActive(st, j) == Has(st.S.rt, j) /\ st.S.rt[j].present /\ st.S.rt[j].active
 
 (* ---- client authentication (secret-based, abstract) --------------------- *)
 AuthErr(op) ==
-  IF op.auth = "ok" \/ (Public(op.client) /\ op.auth = "bad") THEN "ok"
+  \* "hdr_victim": a public client names itself in the Basic header (no secret) and ANOTHER client in the body's
+  \* client_id; the header identifies the client, the body does not change who is asking
+  IF op.auth = "ok" \/ (Public(op.client) /\ op.auth \in {"bad", "hdr_victim"}) THEN "ok"
   ELSE IF op.auth = "none" THEN "invalid_request" ELSE "invalid_client"
 AuthReason(op) == IF op.auth = "none" THEN "client_unauthenticated" ELSE "client_bad_secret"
 
@@ -93,6 +95,7 @@ PkceAuthzErr(st, p) ==   \* pkce.Handler.validate at the authorization endpoint
   ELSE IF p.pkce = "none"
        THEN IF st.cfg.pkce_all \/ (st.cfg.pkce_pub /\ Public(p.client)) THEN "pkce_required" ELSE "ok"
   ELSE IF p.pkce = "S256" THEN "ok"
+  ELSE IF p.pkce = "s256lc" THEN "pkce_unknown_method"      \* method names are exact: "s256" is not a method
   ELSE IF st.cfg.pkce_plain THEN "ok" ELSE "pkce_plain_disabled"
 
 HandlerPhase(st, p) ==
@@ -324,8 +327,11 @@ DoIntrospect(st, op) ==
           [] OTHER -> FALSE
       v == IntrospectVerdict(st, op.kind, op.tok, Range(op.need))
   IN IF ~callerOK THEN Fail(st, "request_unauthorized", "introspect_caller_unauthenticated")
-     ELSE IF v = "active" THEN Ret(st, [Out0 EXCEPT !.res = "active", !.note = "use=" \o op.kind])   \* the kind reported is the real one, whatever the hint
-     ELSE Fail(st, v, "introspect_inactive")
+     ELSE IF v = "active"
+          THEN \* what is reported is the inspected token's own kind, client, subject and scope -- whatever the hint, whoever the caller
+               LET row == IF op.kind = "at" THEN st.S.at[op.tok] ELSE st.S.rt[op.tok] IN
+               Ret(st, [Out0 EXCEPT !.res = "active", !.note = "use=" \o op.kind \o "|" \o row.client \o "|" \o row.sub \o "|" \o JoinScopes(row.scopes)])
+     ELSE Ret(st, [Out0 EXCEPT !.res = v, !.reason = "introspect_inactive", !.note = "bare"])      \* nothing but active=false
 
 (* ======================================================================== *)
 (* Device authorization grant                                               *)
@@ -345,16 +351,22 @@ DoDevStart(st, op) ==
   ELSE Ret([st EXCEPT !.nrid = rid,
                       !.S = CreateDeviceAuthSession(st.S, d,
                               [client |-> op.client, rid |-> rid, req |-> req, scopes |-> Range(op.grant) \cap req,
-                               aud |-> aud, exp |-> st.now + st.cfg.l_dev, ustate |-> "unused",
+                               aud |-> aud, exp |-> st.now + st.cfg.l_dev, ustate |-> "unused", fresh |-> FALSE,
                                present |-> TRUE, inval |-> FALSE, dl |-> TRUE])],
            [Out0 EXCEPT !.dev = d, !.expin = st.cfg.l_dev])
 
+(* "accept_fresh": the consent application approves and REPLACES the session of the stored request by a fresh one
+   (no expiry recorded in it): the lifetime of the codes must not depend on what the session remembers *)
+Accepts(dec) == dec \in {"accept", "accept_fresh"}
 DoDevDecide(st, op) ==
   IF ~Has(st.S.dev, op.dev) THEN Fail(st, "not_found", "dev_unknown")
   ELSE LET row == st.S.dev[op.dev] IN
   IF st.now > row.exp THEN Fail(st, "expired_token", "usercode_expired")
-  ELSE LET S1 == [st.S EXCEPT !.dev[op.dev].ustate = IF op.dec = "accept" THEN "accepted" ELSE "rejected"]
-           S2 == IF op.dec = "accept" /\ "openid" \in row.scopes THEN [S1 EXCEPT !.doidc = @ \cup {op.dev}] ELSE S1
+  ELSE LET S1 == [st.S EXCEPT !.dev[op.dev].ustate = IF Accepts(op.dec) THEN "accepted" ELSE "rejected",
+                            \* whether the consent application replaced the session is part of the state (a request that
+                            \* lost its session's expiry must expire all the same): both variants get their own witnesses
+                            !.dev[op.dev].fresh = (op.dec = "accept_fresh")]
+           S2 == IF Accepts(op.dec) /\ "openid" \in row.scopes THEN [S1 EXCEPT !.doidc = @ \cup {op.dev}] ELSE S1
        IN Ret([st EXCEPT !.S = S2], Out0)
 
 DoDevPoll(st, op) ==
